@@ -37,7 +37,7 @@
 struct plan_item { int by_index; long index; char fn[24]; long occ; int err; int used; };
 static struct plan_item PLAN[MAXPLAN];
 static int NPLAN;
-static int active, depth, logfd = -1;
+static int active, depth, logfd = -1, quiet;     /* quiet: markers only (strace search) */
 static long gidx;
 #define MAXFN 48
 static struct { char fn[24]; long n; } OCC[MAXFN];
@@ -75,6 +75,7 @@ static int decide(const char *fn, long *idx_out) {
 
 static void logcall(long idx, const char *fn, const char *a1, const char *a2, long ret, int err, const unsigned char *data, size_t dn, int injected) {
     static char line[70000], hx[65600];
+    if (quiet) return;
     hexinto(hx, sizeof hx, data, data ? (dn > 32000 ? 32000 : dn) : 0);
     if (!data) strcpy(hx, "-");
     int n = snprintf(line, sizeof line, "io\t%ld\t%s\t%s\t%s\t%ld\t%d\t%s\t%d\n", idx, fn, a1 && *a1 ? a1 : "-", a2 && *a2 ? a2 : "-", ret, err, hx, injected);
@@ -86,6 +87,7 @@ static void hexarg(char *out, size_t cap, const char *s) { hexinto(out, cap, (co
 /* ------------------------------------------------------------------ harness API */
 void verif_fault_begin(const char *plan, int fd) {
     NPLAN = 0; NOCC = 0; gidx = 0; logfd = fd;
+    { const char *qv = getenv("VERIF_FAULT_QUIET"); quiet = qv && *qv == '1'; }
     char buf[4096]; strncpy(buf, plan ? plan : "", sizeof buf - 1); buf[sizeof buf - 1] = 0;
     for (char *sp = NULL, *t = strtok_r(buf, ",", &sp); t && NPLAN < MAXPLAN; t = strtok_r(NULL, ",", &sp)) {
         struct plan_item *p = &PLAN[NPLAN]; memset(p, 0, sizeof *p);
